@@ -223,8 +223,8 @@ func upChild(args []string) {
 		err = hc.readResp(hp, 5*time.Second)
 	}
 	upOut("r:half=" + okTok(err))
-	if err != nil {
-		upOut("x:half-error " + err.Error())
+	if err != nil && os.Getenv("C11_DEBUG") != "" {
+		fmt.Fprintln(os.Stderr, "half-error:", err)
 	}
 	if wc != nil {
 		close(wp.release)
